@@ -133,6 +133,8 @@ def gen_cases(rng, tier):
             # a database built by the GTF importer (genes and transcripts derived; no index on the bin column)
             case["gtf"] = True
             case["feats"] = gtf_annotation(rng)
+            # always with a window query that takes the bin route (both bounds, completely_within) on such a database
+            calls.insert(rng.randrange(len(calls) + 1), {"c": "region_cw", "r": rng.randrange(10 ** 6)})
         if i % 4 == 1:
             case["dialect_gap"] = rng.choice(["order", "order", "trailing semicolon", "repeated keys"])
         cases.append(case)
@@ -206,6 +208,8 @@ def do_call(db, call, feats):
     if c == "failed_delete":
         # the second item cannot be turned into an id: delete() raises after the first DELETE statements, before its commit
         return db.delete([rng.choice(ids), None])
+    if c == "region_cw":
+        return list(db.region(region=("chr1", rng.choice([1, 40]), rng.choice([900, 3000])), completely_within=True))
     if c == "region":
         form = rng.choice(["tuple", "str", "feature", "kw"])
         cw = rng.random() < 0.5
